@@ -108,7 +108,9 @@ fn line_comment_text(ascii_only: bool) -> BoxedStrategy<String> {
 
 fn block_comment_text(ascii_only: bool) -> BoxedStrategy<String> {
     let pool: Vec<&'static str> = if ascii_only {
-        vec![" c ", "", "c", " -- dashes inside -- ", " * lone star ", " / lone slash ", " 'q' \"dq\" ", " END BEGIN ::= ", " a\n multi\n line ", "*", " ** "]
+        // (continuation lines that begin with `--`: the closing `*/` or a nested `/*` then sits on a
+        // line that looks like a line comment)
+        vec![" c ", "", "c", " -- dashes inside -- ", " * lone star ", " / lone slash ", " 'q' \"dq\" ", " END BEGIN ::= ", " a\n multi\n line ", "*", " ** ", " c\n-- d ", "\n--", " x\n   -- y\n-- z ", "\r\n-- w "]
     } else {
         vec![" \u{e4}\u{20ac} ", " c ", " \u{1F600} "]
     };
